@@ -135,8 +135,10 @@ func checkC14(c *core.Check) {
 	}
 	rng := rand.New(rand.NewSource(c.Seed))
 	nOps, perPkg, fuzzN := 40, 20, 40000
+	nBodyDocs := 8
 	if thorough {
 		nOps, fuzzN = 200, 600000
+		nBodyDocs = 20
 	}
 	// operations: the wire universe (typed parameters, JSON / raw bodies), pre-flighted
 	var seeds []int64
@@ -199,6 +201,17 @@ func checkC14(c *core.Check) {
 			for _, rc := range nearMisses(valid, base.NF(), newID) {
 				g.Cases = append(g.Cases, rc)
 				info[rc.ID] = rc
+			}
+			// documents of the body schema (optional properties present / absent, 0..2 additional properties,
+			// explicit nulls) and their single-fault mutants as request bodies
+			if rb := resolveBody(a, w.op.Body); rb.K == "json" && rb.Schema != nil {
+				for _, dc := range docsFor(tlaSchema(a, *rb.Schema, 0), rng, nBodyDocs) {
+					bs, _ := json.Marshal(dc.doc)
+					rc := valid
+					rc.ID, rc.Body, rc.HasBody = newID(), string(bs), true
+					g.Cases = append(g.Cases, rc)
+					info[rc.ID] = rc
+				}
 			}
 		}
 		jobs = append(jobs, a.Job(id))
